@@ -13,6 +13,8 @@
 //	entry    <query> <record>              every entry point under recover()
 //	reuse    <query> <record>...           one prepared query on sequences of records / goroutines
 //	num      f<bits-hex> | i<int64> | p<hex string>   FormatFloat('g',6), float64(int64), ParseFloat
+//	surface  <query>                       ExpandMacros + Parse only: the tree before Precompute, regexp.Compile of its regex literals
+//	paths    <string>                      jp.ParseString: the expression and its String()
 package main
 
 import (
@@ -59,6 +61,10 @@ func main() {
 		loop(func(f []string) interface{} { return doReuse(f[0], f[1:]) })
 	case "num":
 		loop(func(f []string) interface{} { return doNum(f[0]) })
+	case "surface":
+		loop(func(f []string) interface{} { return doSurface(f[0]) })
+	case "paths":
+		loop(func(f []string) interface{} { return doPath(f[0]) })
 	default:
 		os.Exit(2)
 	}
@@ -586,3 +592,114 @@ func doNum(s string) numOut {
 }
 
 var _ = jp.Expr{}
+
+// --------------------------------------------------------------------------------------- surface
+type surfaceOut struct {
+	Outcome string `json:"outcome"` // ok | error | panic
+	Msg     string `json:"msg,omitempty"`
+	Ast     string `json:"ast,omitempty"`
+	Regexes string `json:"regexes,omitempty"` // Coq list (bytes * bool): regexp.Compile(strings.Trim(token, `"`)) succeeds
+	Shape   []string `json:"shape,omitempty"`
+}
+
+func collectRegexTokens(e *kfl.Expression, out *[]string) {
+	if e == nil || e.Logical == nil {
+		return
+	}
+	var logical func(l *kfl.Logical)
+	var equality func(q *kfl.Equality)
+	var comparison func(c *kfl.Comparison)
+	var unary func(u *kfl.Unary)
+	logical = func(l *kfl.Logical) {
+		for ; l != nil; l = l.Next {
+			equality(l.Equality)
+		}
+	}
+	equality = func(q *kfl.Equality) {
+		for ; q != nil; q = q.Next {
+			comparison(q.Comparison)
+		}
+	}
+	comparison = func(c *kfl.Comparison) {
+		for ; c != nil; c = c.Next {
+			unary(c.Unary)
+		}
+	}
+	unary = func(u *kfl.Unary) {
+		for u != nil && u.Unary != nil {
+			u = u.Unary
+		}
+		if u == nil || u.Primary == nil {
+			return
+		}
+		p := u.Primary
+		if p.Regex != nil {
+			*out = append(*out, *p.Regex)
+		}
+		if p.SubExpression != nil {
+			collectRegexTokens(p.SubExpression, out)
+		}
+		if c := p.CallExpression; c != nil {
+			for _, prm := range c.Parameters {
+				if prm != nil {
+					collectRegexTokens(prm.Expression, out)
+				}
+			}
+			if c.SelectExpression != nil {
+				collectRegexTokens(c.SelectExpression.Expression, out)
+			}
+		}
+	}
+	logical(e.Logical)
+}
+
+func doSurface(query string) (out surfaceOut) {
+	defer func() {
+		if r := recover(); r != nil {
+			out.Outcome, out.Msg = "panic", fmt.Sprint(r)
+		}
+	}()
+	expanded, err := kfl.ExpandMacros(query)
+	if err != nil {
+		out.Outcome, out.Msg = "error", err.Error()
+		return
+	}
+	expr, err := kfl.Parse(expanded)
+	if err != nil {
+		out.Outcome, out.Msg = "error", err.Error()
+		return
+	}
+	d := &dumper{}
+	out.Ast = d.expr(expr)
+	out.Shape = d.shapeErr
+	var toks []string
+	collectRegexTokens(expr, &toks)
+	var parts []string
+	for _, t := range uniq(toks) {
+		src := strings.Trim(t, "\"")
+		_, cerr := regexp.Compile(src)
+		parts = append(parts, "("+coqBytes(src)+", "+coqBool(cerr == nil)+")")
+	}
+	out.Regexes = "[" + strings.Join(parts, "; ") + "]"
+	out.Outcome = "ok"
+	return
+}
+
+// ----------------------------------------------------------------------------------------- paths
+type pathOut struct {
+	Coq string `json:"coq"` // None | Some (fragments, String())
+}
+
+func doPath(s string) (out pathOut) {
+	defer func() {
+		if r := recover(); r != nil {
+			out.Coq = "None"
+		}
+	}()
+	x, err := jp.ParseString(s)
+	if err != nil {
+		return pathOut{Coq: "None"}
+	}
+	d := &dumper{}
+	return pathOut{Coq: "(Some (" + d.path(x) + ", " + coqBytes(x.String()) + "))"}
+}
